@@ -44,12 +44,73 @@ RULE = ("worker-pool histories as for C01 on the oracle kinds that take max_tria
         "non-trivial = distinct history with >= 2 ended trials")
 
 
+def run_shrunk(c):
+    """a project that already holds k trials is resumed by an oracle whose max_trials is N2 <= k: every request is answered STOPPED"""
+    import random, tempfile, shutil, warnings
+    warnings.filterwarnings("ignore")
+    import keras_tuner as kt
+    from keras_tuner.engine import hyperparameters as hpm
+    from keras_tuner.tuners import randomsearch, gridsearch, bayesian
+    rng = random.Random(c["seed"])
+    d = tempfile.mkdtemp(prefix="ktv02s_")
+
+    def mk(N):
+        hps = hpm.HyperParameters(); hps.Int("x", 0, 19)
+        common = dict(objective=kt.Objective("score", "min"), max_trials=N, hyperparameters=hps, seed=c["oseed"], max_retries_per_trial=1, max_consecutive_failed_trials=99)
+        if c["kind"] == "random": o = randomsearch.RandomSearchOracle(**common)
+        elif c["kind"] == "grid": o = gridsearch.GridSearchOracle(**common)
+        else: o = bayesian.BayesianOptimizationOracle(num_initial_points=2, **common)
+        o._set_project_dir(d, "p"); o._display.verbose = 0
+        return o
+    try:
+        o = mk(c["N1"])
+        for i in range(c["k"]):
+            t = o.create_trial("w0")
+            if t.status != "RUNNING":
+                return None
+            x = rng.random()
+            if x < 0.8:
+                o.update_trial(t.trial_id, {"score": float(rng.randint(0, 9))}); t.status = "COMPLETED"
+            else:
+                t.status = "FAILED"
+            o.end_trial(t)
+        o2 = mk(c["N2"]); o2.reload()
+        before = len(o2.trials)
+        for j in range(3):
+            t = o2.create_trial("w%d" % (j % 2))
+            if t.status != "STOPPED" or len(o2.trials) != before:
+                return "resumed with max_trials=%d on a project holding %d trials (%s oracle): request %d answered %s, %d trials exist now" % (
+                    c["N2"], before, c["kind"], j, t.status, len(o2.trials))
+        return None
+    finally:
+        shutil.rmtree(d, ignore_errors=True)
+
+
+def shrunk_cases(ctx, n):
+    fails = []
+    for i in range(n):
+        N1 = ctx.rng.randint(2, 6); k = ctx.rng.randint(1, N1)
+        c = dict(kind=ctx.rng.choice(["random", "grid", "bayes"]), N1=N1, k=k, N2=ctx.rng.randint(1, k), seed=ctx.rng.randint(0, 2 ** 31), oseed=ctx.rng.randint(1, 10 ** 6))
+        bad = run_shrunk(c)
+        if bad and len(fails) < 2:
+            fails.append(Failure("violation", "C02/stopped-at-budget-after-resume", bad, {"shrunk": c}))
+    return fails
+
+
 def run(ctx):
     res = c01.run_generic(ctx, "C02", ctx.n(200, 3000), gen, spec_c02, rule=RULE)
+    n2 = ctx.n(40, 400)
+    res["failures"] = list(res.get("failures", [])) + shrunk_cases(ctx, n2)
+    res["evaluations"] = res.get("evaluations", 0) + n2
+    res["rule"] = res.get("rule", RULE) + "; plus %d resumed projects: k trials made under max_trials=N1, then a new oracle with max_trials=N2 <= k reloads the project and every request must be answered STOPPED with no new trial (implementation-level clause; the model keeps N fixed)" % n2
     return res
 
 
 def replay(ctx, doc):
+    if "shrunk" in doc.get("replay", {}):
+        bad = run_shrunk(doc["replay"]["shrunk"])
+        fs = [Failure("violation", "C02/stopped-at-budget-after-resume", bad, {"shrunk": doc["replay"]["shrunk"]})] if bad else []
+        return dict(evaluations=1, distinct_nontrivial=1, failures=fs, samples=[doc["replay"]["shrunk"]], rule="replay")
     h = lc.run_history(doc["replay"]["cfg"])
     bad = spec_c02(h)
     fs = [Failure("violation", "C02/" + bad[1], "step %d: %s" % (bad[0], bad[2]), {"cfg": h["cfg"], "step": bad[0]})] if bad else []
